@@ -3,6 +3,7 @@
 # property it was written against, undo it; prints one line per change.  /repo must be clean; do not run other checks meanwhile.
 V=$(cd "$(dirname "$0")/.." && pwd)
 [ -z "$(git -C /repo status --short)" ] || { echo "/repo is not clean"; exit 2; }
+rm -rf $V/build/evidence.saved && cp -r $V/evidence $V/build/evidence.saved   # evidence of the unchanged tree is kept
 for d in $V/seeded/${1:-*}; do
   id=$(basename $d); prop=${id%%-*}
   git -C /repo apply $d/patch.diff 2>/dev/null || { echo "$id PATCH-DOES-NOT-APPLY"; continue; }
@@ -10,5 +11,6 @@ for d in $V/seeded/${1:-*}; do
   git -C /repo checkout -- .
   case "$out" in VIOLATION*) echo "$id caught  $out";; *) echo "$id MISSED  $out";; esac
 done
+rm -rf $V/evidence && mv $V/build/evidence.saved $V/evidence
 $V/build/extract -repo /repo -out $V/lean/CorsVerif/Gen/Facts.lean
 git -C /repo status --short
